@@ -133,6 +133,13 @@ func (p *Pair) record(e Event) {
 	p.mu.Unlock()
 }
 
+// Seq returns the number of events logged so far (a progress counter).
+func (p *Pair) Seq() int64 {
+	p.mu.Lock()
+	defer p.mu.Unlock()
+	return p.seq
+}
+
 // Log returns a copy of the event log.
 func (p *Pair) Log() []Event {
 	p.mu.Lock()
@@ -213,6 +220,11 @@ func (e *End) SendMsg(m interface{}) error {
 	if cfg.KeepStats && pk.Stat != nil {
 		ev.St = pk.Stat.CloneVT()
 	}
+	// "sendq" marks the moment the caller entered SendMsg (before the packet
+	// can possibly be seen by the peer); "send" marks completed hand-over.
+	evq := ev
+	evq.Op = "sendq"
+	e.pair.record(evq)
 	if cfg.Hook != nil {
 		cfg.Hook(e.Name, "send", idx, 0)
 	}
